@@ -1093,3 +1093,29 @@ package kapacitor
 //@   loop 2
 //@     modifies gfall(mutated, bool)
 //@     invariant 0 <= _i && _i <= len(points) && points == b.Points() && diff == time.Duration(clck.Zero() - start)
+
+// ---------------------------------------------------------------- task_master.go (C02)
+// "delivered to each enabled stream task that declared that pair ... exactly once": forkPoint
+// hands a point to the task edges registered under (db, rp, measurement) and to those registered
+// under (db, rp, "") -- tasks with an unfiltered from(). A task has ONE edge, registered under
+// its task name in the inner map of every key it subscribed to. So a point reaches a task once
+// iff the second walk skips the task names the first walk already served. The edges' own
+// delivery is trusted; the contract pins down which names are served in each walk.
+//@ func =(github.com/influxdata/kapacitor/edge.Edge).Collect
+//@   trusted
+//@   modifies nothing
+//@ func =(github.com/influxdata/kapacitor/edge.PointMessage).Database
+//@   trusted
+//@   pure
+//@ func =(github.com/influxdata/kapacitor/edge.PointMessage).RetentionPolicy
+//@   trusted
+//@   pure
+//@ func (*TaskMaster).forkPoint$1
+//@   trusted
+//@   modifies nothing
+//@ func (*TaskMaster).forkPoint
+//@   props C02
+//@   requires tm != nil && p != nil && tm.forkStats != nil
+//@   requires forall k forkKey, n string :: has(tm.forks, k) && has(tm.forks[k], n) ==> tm.forks[k][n] != nil
+//@   guardcall Collect#1: arg0 == p && !has(tm.forks[key], _k) && _k == name
+//@   guardcall Collect#2: arg0 == p
